@@ -58,6 +58,68 @@ type doc struct {
 	RecordPerm []int `json:"record_perm,omitempty"`
 	ReverseKid bool  `json:"reverse_children,omitempty"`
 	FamFirst   bool  `json:"fam_first,omitempty"`
+	// Edits are applied to the decoded document through the public API after its warnings
+	// were reported once; the warnings are then asked for again.
+	Edits []docEdit `json:"edits,omitempty"`
+}
+
+type docEdit struct {
+	Kind string `json:"kind"` // delete-person | replace-person | add-child | change-birth
+	A    int    `json:"a"`
+	B    int    `json:"b"`
+}
+
+// applyEdit changes the live document through the public API; false when not applicable.
+func applyEdit(document *gedcom.Document, e docEdit) (ok bool) {
+	defer func() {
+		if recover() != nil {
+			ok = false
+		}
+	}()
+	inds, fams := document.Individuals(), document.Families()
+	if len(inds) == 0 {
+		return false
+	}
+	ind := inds[e.A%len(inds)]
+	switch e.Kind {
+	case "delete-person":
+		document.DeleteNode(ind)
+		return true
+	case "replace-person":
+		// another person under the same pointer, born on another day
+		ptr := ind.Pointer()
+		document.DeleteNode(ind)
+		re := document.AddIndividual(ptr)
+		re.AddName("Re /Placed/")
+		re.AddBirthDate(fmt.Sprintf("%d May %d", 1+e.B%28, 1700+e.B%150))
+		return true
+	case "add-child":
+		if len(fams) == 0 {
+			return false
+		}
+		fams[e.B%len(fams)].AddChild(ind)
+		return true
+	case "change-birth":
+		b, _ := ind.Birth()
+		if b == nil {
+			ind.AddBirthDate(fmt.Sprintf("%d Mar %d", 1+e.B%28, 1700+e.B%150))
+			return true
+		}
+		for _, n := range b.Nodes() {
+			if n.Tag().Tag() == "DATE" {
+				b.DeleteNode(n)
+			}
+		}
+		b.AddNode(gedcom.NewDateNode(fmt.Sprintf("%d Mar %d", 1+e.B%28, 1700+e.B%150)))
+		return true
+	}
+	return false
+}
+
+func sortedStrings(w gedcom.Warnings) []string {
+	s := w.Strings()
+	sort.Strings(s)
+	return s
 }
 
 var mon = []string{"", "Jan", "Feb", "Mar", "Apr", "May", "Jun", "Jul", "Aug", "Sep", "Oct", "Nov", "Dec"}
@@ -463,8 +525,28 @@ func check(d *doc) (fl *harness.Failure, nexp int, kinds []string) {
 			return harness.Failf("second-report-differs:"+kindOf(k), "warning %s reported x%d by the first call of Warnings() and x%d by the second call on the same document\nfirst: %v\nsecond: %v\nfile:\n%s", k, got[k], again[k], texts, textsAgain, text), nexp, kinds
 		}
 	}
+	// a document that was changed through the public API after its warnings were reported is a
+	// document like any other: its report is the report of the same text decoded from nothing
+	// (which the clauses above judge on other cases)
+	applied := 0
+	for _, e := range d.Edits {
+		if applyEdit(document, e) {
+			applied++
+		}
+	}
+	if applied > 0 {
+		kinds = append(kinds, "edited-through-the-api")
+		live := sortedStrings(document.Warnings())
+		fresh, err := gedcom.NewDocumentFromString(document.String())
+		if err == nil {
+			if want := sortedStrings(fresh.Warnings()); strings.Join(live, "\n") != strings.Join(want, "\n") {
+				return harness.Failf("edited-document-report-differs", "after %v through the public API the document reports\n%s\nand the same text decoded from nothing reports\n%s\ntext now:\n%s", d.Edits, strings.Join(live, "\n"), strings.Join(want, "\n"), document.String()), nexp, kinds
+			}
+		}
+	}
 	// reordering records and children does not change the set of warnings
 	d2 := *d
+	d2.Edits = nil
 	d2.ReverseKid = !d.ReverseKid
 	d2.FamFirst = !d.FamFirst
 	perm := make([]int, len(d.People))
@@ -681,6 +763,12 @@ func genDoc(t *rapid.T) *doc {
 	}
 	d.FamFirst = rapid.Bool().Draw(t, "famFirst")
 	d.ReverseKid = rapid.Bool().Draw(t, "reverseKids")
+	if rapid.IntRange(0, 3).Draw(t, "edited") == 0 {
+		for k := rapid.IntRange(1, 2).Draw(t, "nedits"); k > 0; k-- {
+			d.Edits = append(d.Edits, docEdit{Kind: rapid.SampledFrom([]string{"delete-person", "replace-person", "add-child", "change-birth"}).Draw(t, "editKind"),
+				A: rapid.IntRange(0, 6).Draw(t, "editA"), B: rapid.IntRange(0, 200).Draw(t, "editB")})
+		}
+	}
 	return d
 }
 
@@ -694,7 +782,7 @@ func seq(n int) []int {
 
 func TestCheckWarnings(t *testing.T) {
 	s := harness.NewSub("warnings-sound-and-complete",
-		"random family graphs (1..7 people, 0..3 families, distinct roles inside a family, a sibling pair shares at most one family) with exact D Mon Y dates between about 1600 and 1975: sibling gaps from {0,1,2,3,30,200,269,270,280,281,400,1000} days, children born -400/-1/0/+1 days or 15-35 years relative to a parent, deaths at -10 days .. 130 years incl. 99.9/100.1, marriages at 10/15.9/16.1/25/60/99.9/100.1/104 years, baptisms/burials around birth/death, 0-3 SEX lines, unparsable dates in RESI/ENGA events; the multiset of (warning kind, people, dates) computed from the facts must equal the projection of Document.Warnings(), again on a second call after the views and similarities of the document were read, and before and after reordering records and children; non-trivial = at least one warranted warning and at least one candidate of another kind that is not warranted")
+		"random family graphs (1..7 people, 0..3 families, distinct roles inside a family, a sibling pair shares at most one family) with exact D Mon Y dates between about 1600 and 1975: sibling gaps from {0,1,2,3,30,200,269,270,280,281,400,1000} days, children born -400/-1/0/+1 days or 15-35 years relative to a parent, deaths at -10 days .. 130 years incl. 99.9/100.1, marriages at 10/15.9/16.1/25/60/99.9/100.1/104 years, baptisms/burials around birth/death, 0-3 SEX lines, unparsable dates in RESI/ENGA events; the multiset of (warning kind, people, dates) computed from the facts must equal the projection of Document.Warnings(), again on a second call after the views and similarities of the document were read, and before and after reordering records and children; for a quarter of the documents 1..2 edits through the public API follow (a person deleted, replaced by another under the same pointer, added as a child, a birth date changed) and the report must then be that of the same text decoded from nothing; non-trivial = at least one warranted warning and at least one candidate of another kind that is not warranted")
 	s.Rapid(t, harness.Share(harness.Pick(80000, 2000000)), 200, func(rt *rapid.T) {
 		d := genDoc(rt)
 		fl, nexp, kinds := check(d)
